@@ -39,6 +39,7 @@ package staged
 //@
 //@ func NewRateCalculator
 //@   props C10 C14
+//@   modifies nothing
 //@   ensures [wf] wfCalc(result) && fresh(result) && result.current == -1 && len(result.stages) == len(stages)
 //@   ensures [same] forall j int :: 0 <= j && j < len(stages) ==> result.stages[j].EndTarget == stages[j].EndTarget && result.stages[j].Duration == stages[j].Duration
 //@   ensures [start] result.start == (start == nil ? timeZero() : old(deref(start)))
@@ -80,6 +81,6 @@ package staged
 //@ func CalculateStagedRate
 //@   props C14 C10
 //@   requires GJclaim == 1 ==> (jitterArg == 0.0 || (jitterConsts(jitterArg) && GJin == GJout))
-//@   modifies nothing
+//@   modifies G12R, G12E
 //@   ensures [runnable] result.1 == nil ==> result.0 != nil && result.0.Rate != nil && result.0.IterationDuration > 0
 //@   ensures [rejected] result.1 != nil ==> result.0 == nil
